@@ -41,12 +41,19 @@ def oracle(c):
             if s < pos or (not has_layout and not oracles.is_ws(gap)):
                 okk = False
                 break
+            if has_layout and c.gram.layout in ("ws", "comments", "nested") and \
+                    not oracles.layout_sentence(c.gram.layout, gap.decode(errors="replace")):
+                okk = False     # what was skipped between two tokens is not layout: the leaves are not the tokens of the input
+                break
             rs = lf.rec_string(d, leaf["kind"])
             if rs is not None and data[s:e] != rs.encode():
                 okk = False
                 break
             pos = e
         if okk and partial == "0" and not has_layout and not oracles.is_ws(data[pos:]):
+            okk = False
+        if okk and partial == "0" and has_layout and c.gram.layout in ("ws", "comments", "nested") and \
+                not oracles.layout_sentence(c.gram.layout, data[pos:].decode(errors="replace")):
             okk = False
         if not okk:
             bad.append((k, "leaves are not the tokens of the consumed input in order"))
